@@ -56,8 +56,8 @@ def run(ctx):
     D = {"workers": 4, "heap": "4g"}
     P = dict(BASE, design=[dict(D, module="I_Marks", cfg="MC_I_Marks_quick.cfg", thorough_cfg="MC_I_Marks.cfg")],
              gen={"module": "Gen_Marks", "cfg": "Gen_cover_q.cfg", "thorough_cfg": "Gen_cover.cfg", "workers": 4,
-                  "max": 500, "thorough_max": 30000, "thorough_timeout": 1200},
-             n_random=(200, 5000))
+                  "max": 400, "thorough_max": 30000, "thorough_timeout": 1200},
+             n_random=(120, 5000))
     pipeline.standard_check(ctx, P)
     if not ctx.violations:
         drift(ctx, 1)
